@@ -10,12 +10,14 @@ cd $W || exit 2
 git diff --quiet && { echo "worktree has no change"; exit 2; }
 git diff -- src > /dev/shm/seed-$id.diff
 cp $O/demo_test.go $W/$pkg/zz_seed_demo_test.go
-with=$(go test -vet=off -count=1 -run "$rx" ./$pkg/ 2>&1 | tail -1)
+# SEED_TEST_FLAGS (e.g. -race) are added to the demo runs; SEED_UNSHARE=1 runs every go test in a private network namespace (gnet binds fixed ports)
+gt() { if [ -n "$SEED_UNSHARE" ]; then unshare -n sh -c "ip link set lo up && go test $*"; else go test "$@"; fi; }
+with=$(gt $SEED_TEST_FLAGS -vet=off -count=1 -run "$rx" ./$pkg/ 2>&1 | tail -1)
 git apply -R /dev/shm/seed-$id.diff
-without=$(go test -vet=off -count=1 -run "$rx" ./$pkg/ 2>&1 | tail -1)
+without=$(gt $SEED_TEST_FLAGS -vet=off -count=1 -run "$rx" ./$pkg/ 2>&1 | tail -1)
 git apply /dev/shm/seed-$id.diff
 rm -f $W/$pkg/zz_seed_demo_test.go
-tests=$(go test -vet=off -count=1 -skip 'TestErrMissingSignatureRecreateDB|TestIsWritable|TestServiceNewAddresses' ./$pkg/ 2>&1 | tail -1)
+tests=$(gt -vet=off -count=1 -skip "'TestErrMissingSignatureRecreateDB|TestIsWritable|TestServiceNewAddresses'" ./$pkg/ 2>&1 | tail -1)
 echo "demo with change:    $with"; echo "demo without change: $without"; echo "package tests with change: $tests"
 cd /verif
 mkdir -p seeded/$D /dev/shm/seedm
